@@ -120,6 +120,11 @@ type item struct {
 
 // Store is the server double.
 type Store struct {
+	// ClusterMode: the store presents itself as a Redis Cluster of one primary that serves every slot
+	// (CLUSTER SLOTS, COMMAND GETKEYS for EVAL/EVALSHA, INFO cluster_enabled:1): a cluster client takes
+	// one pooled connection per command instead of one connection for everything. Set before use.
+	ClusterMode bool
+
 	ln net.Listener
 
 	mu        sync.Mutex
@@ -488,7 +493,7 @@ func (s *Store) serve(id int64, c net.Conn) {
 
 func isHandshake(cmd string) bool {
 	switch cmd {
-	case "AUTH", "PING", "SELECT", "HELLO", "CLIENT", "QUIT", "ECHO":
+	case "AUTH", "PING", "SELECT", "HELLO", "CLIENT", "QUIT", "ECHO", "CLUSTER", "COMMAND":
 		return true
 	}
 	return false
@@ -650,6 +655,11 @@ func (x *execCtx) exec(cmd string, a []string, inScript bool) interface{} {
 	case "AUTH":
 		switch len(a) {
 		case 1:
+			// a client that authenticates with a password only (the cluster client): the harness
+			// gives every instance its own password, which then serves as the connection's tag
+			if s.ClusterMode {
+				cs.tag = a[0]
+			}
 		case 2:
 			cs.tag = a[0]
 		default:
@@ -833,10 +843,40 @@ func (x *execCtx) exec(cmd string, a []string, inScript bool) interface{} {
 	case "TIME":
 		return []interface{}{strconv.FormatInt(s.now/1000, 10), strconv.FormatInt((s.now%1000)*1000, 10)}
 	case "INFO":
+		if s.ClusterMode {
+			return "# Server\r\nredis_version:7.0.15\r\nredis_mode:cluster\r\n# Replication\r\nrole:master\r\nconnected_slaves:0\r\n# Cluster\r\ncluster_enabled:1\r\n"
+		}
 		return "# Server\r\nredis_version:7.0.15\r\nredis_mode:standalone\r\n# Replication\r\nrole:master\r\nconnected_slaves:0\r\n# Cluster\r\ncluster_enabled:0\r\n"
 	case "CLUSTER":
-		return errReply("ERR This instance has cluster support disabled")
+		if !s.ClusterMode {
+			return errReply("ERR This instance has cluster support disabled")
+		}
+		host, port, _ := net.SplitHostPort(s.ln.Addr().String())
+		pn, _ := strconv.ParseInt(port, 10, 64)
+		switch {
+		case len(a) >= 1 && strings.EqualFold(a[0], "SLOTS"):
+			return []interface{}{[]interface{}{int64(0), int64(16383), []interface{}{host, pn, "leasestore000000000000000000000000000001"}}}
+		case len(a) >= 1 && strings.EqualFold(a[0], "NODES"):
+			return fmt.Sprintf("leasestore000000000000000000000000000001 %s:%s@1%s myself,master - 0 0 1 connected 0-16383\n", host, port, port)
+		case len(a) >= 1 && strings.EqualFold(a[0], "INFO"):
+			return "cluster_state:ok\r\ncluster_slots_assigned:16384\r\ncluster_known_nodes:1\r\ncluster_size:1\r\n"
+		}
+		return errReply("ERR unknown subcommand '%s'", strings.Join(a, " "))
 	case "COMMAND":
+		if len(a) >= 4 && strings.EqualFold(a[0], "GETKEYS") && (strings.EqualFold(a[1], "EVAL") || strings.EqualFold(a[1], "EVALSHA")) {
+			n, err := strconv.Atoi(a[3])
+			if err != nil || n < 0 || 4+n > len(a) {
+				return errReply("ERR Invalid arguments specified for command")
+			}
+			out := make([]interface{}, 0, n)
+			for _, k := range a[4 : 4+n] {
+				out = append(out, k)
+			}
+			return out
+		}
+		if len(a) >= 3 && strings.EqualFold(a[0], "GETKEYS") {
+			return []interface{}{a[2]}
+		}
 		return []interface{}{}
 	case "SCRIPT":
 		if len(a) < 1 {
